@@ -406,7 +406,7 @@ def run(ctx):
                 "outcome judged by TLC against the guaranteed detection capability. distinct = words + corruption cases.")
     ctx.assumptions += [
         "membership is relative to the code the library's own Golay/QR generator spans (C06 verifies those codes)",
-        "outcome 'indicator true and all non-check fields equal to the original' is accepted (corruption confined to the check field)",
+        "a corruption within the proven capability must end in 'indicator false' or a decode error; an accepted object breaks the property also when its fields equal the original (CorruptPduReportedIntact)",
         "guaranteed capability: single bit errors (all), bursts <= check width (CRC), weight <= 3 (CRC-CCITT over 96 bits) - proved on the polynomials in CRC.tla",
     ]
     core.setup_repo_path()
